@@ -10,9 +10,9 @@
    by the Manager by value or by reference ([byref]: torch tensors = shared memory), progs ANY
    number of processes with ANY programs of get / dispose / len / in-place modification of the
    sample last received, sched ANY schedule (list of process ids, unbounded). *)
-From Coq Require Import ZArith List Bool Arith.
+From Coq Require Import String ZArith List Bool Arith.
 Import ListNotations.
-From KD Require Import C19.Model C19.Spec C19.Proofs.
+From KD Require Import C19.Model C19.Attr C19.Graph C19.Spec C19.Proofs C19.ProofsAttr C19.ProofsGraph.
 Open Scope Z_scope.
 
 (* ------------------------------------------------------------- sequential histories *)
@@ -155,6 +155,113 @@ Theorem alias_consumer_write_prefix_refuted :
 Proof. exact alias_consumer_write_prefix_refuted_l. Qed.
 Print Assumptions alias_consumer_write_prefix_refuted.
 
+(* ------------------------------------------- who answers getattr(cached, name) (Attr.v) *)
+(* The access model above takes for granted that cached[i] uses the cache layer's own `transform`, `dataset`,
+   `shared_dict`, and that whoever fetches from the cached dataset reaches CachedDataset.__getitem__.  All of these are
+   attribute lookups, and __getattr__ forwards unknown names to the wrapped dataset.  [inh] = the names torch's Dataset /
+   object answer (any list), [bh] = the names the wrapped dataset answers (ANY predicate on strings: the wrapped dataset
+   may carry every name the cache layer uses).  [gf] = true is the class with fixes/C19_getitems_bypass.patch. *)
+
+(* no name the cache layer sets in __init__ or defines in its class bodies is ever answered by the wrapped dataset *)
+Theorem cache_layer_names_never_forwarded :
+  forall gf inh bh n, In n (inst_shared ++ cls_shared gf)%list -> resolve (shared_layer gf) inh bh n = Own.
+Proof. exact cache_names_own_l. Qed.
+Print Assumptions cache_layer_names_never_forwarded.
+
+(* the transform CachedDataset.__getitem__ applies is the constructor's post-cache transform (None = none) - never the
+   `transform` attribute of the wrapped dataset, which already ran inside wrapped[i] *)
+Theorem transform_is_post_cache_transform :
+  forall gf inh bh, getitem_transform (shared_layer gf) inh bh = TPost.
+Proof. exact transform_is_post_cache_l. Qed.
+Print Assumptions transform_is_post_cache_transform.
+
+(* ... and this rests on __init__ ALWAYS creating the instance attribute: any layer that has `dataset` but no `transform`
+   of its own applies the wrapped dataset's transform a second time as soon as the wrapped dataset has one *)
+Theorem transform_slot_needed :
+  forall L inh bh,
+    ~ In "transform"%string (l_inst L) -> ~ In "transform"%string (l_cls L) -> ~ In "transform"%string inh ->
+    In "dataset"%string (l_inst L) -> bh "transform"%string = true ->
+    getitem_transform L inh bh = TWrapped.
+Proof. exact transform_slot_needed_l. Qed.
+Print Assumptions transform_slot_needed.
+
+(* every other name is still delegated to the wrapped dataset (the repair does not cut delegation) *)
+Theorem delegation_kept :
+  forall gf inh bh n,
+    ~ In n (inst_shared ++ cls_shared gf)%list -> ~ In n inh ->
+    resolve (shared_layer gf) inh bh n = if bh n then Fwd else Missing.
+Proof. exact delegation_kept_l. Qed.
+Print Assumptions delegation_kept.
+
+(* copy.copy / pickle.loads probe attributes of an instance whose __dict__ is still empty: never forwarded (no recursion) *)
+Theorem blank_instance_never_forwards :
+  forall gf inh bh n, ~ In "dataset"%string inh -> resolve (blank_layer gf) inh bh n <> Fwd.
+Proof. exact blank_never_forwards_l. Qed.
+Print Assumptions blank_instance_never_forwards.
+
+(* torch's DataLoader fetcher (Attr.v fetch_route): with the repaired class every batch is fetched through the cache,
+   whatever the wrapped dataset defines - and the accesses of any list of batches are a sequential history, so they
+   produce exactly the specified events (transform on every sample, every index loaded at most once between clears) *)
+Theorem loader_transparent :
+  forall inh bh fixed byref inplace base blen tf draws n p batches,
+    (p < n)%nat ->
+    fetch_route (shared_layer true) inh bh = ViaCache /\
+    log (seq_exec fixed true byref inplace base blen tf draws n (loader_hist p batches))
+    = spec_seq base blen tf draws [] (fun _ => O) (loader_hist p batches).
+Proof. exact loader_transparent_l. Qed.
+Print Assumptions loader_transparent.
+
+(* DOCUMENTATION OF THE REPAIR fixes/C19_getitems_bypass.patch: the class body without __getitems__ over ANY wrapped
+   dataset with a usable __getitems__ (torch Subset, KD datasets, ...): batches come from the wrapped dataset, neither
+   cache nor post-cache transform are involved *)
+Theorem loader_bypass_prefix_refuted :
+  forall inh bh, ~ In "__getitems__"%string inh -> bh "__getitems__"%string = true ->
+                 fetch_route (shared_layer false) inh bh = Bypass.
+Proof. exact loader_bypass_prefix_l. Qed.
+Print Assumptions loader_bypass_prefix_refuted.
+
+(* ------------------------------------------------ samples that are object graphs (Graph.v) *)
+(* Model.v lets one heap cell stand for a sample.  For a sample that is ANY tree of containers and objects with tensors
+   at the leaves (shape), h ANY heap, ws ANY sequence of in-place writes to tensors of the returned copy: the copy reads
+   like the sample, and every sample that existed before (the cached entry, what other holders received) still reads
+   as before *)
+Theorem deepcopy_private :
+  forall h sample ws other,
+    below (length h) sample -> below (length h) other ->
+    incl (targets ws) (leaves (snd (dcopy h sample))) ->
+    value (fst (dcopy h sample)) (snd (dcopy h sample)) = value h sample /\
+    value (writes ws (fst (dcopy h sample))) other = value h other.
+Proof. exact deepcopy_private_l. Qed.
+Print Assumptions deepcopy_private.
+
+(* the next access, after those writes, again gets a copy that reads like the sample *)
+Theorem deepcopy_again :
+  forall h sample ws,
+    below (length h) sample ->
+    incl (targets ws) (leaves (snd (dcopy h sample))) ->
+    let h1 := writes ws (fst (dcopy h sample)) in
+    value (fst (dcopy h1 sample)) (snd (dcopy h1 sample)) = value h sample.
+Proof. exact deepcopy_again_l. Qed.
+Print Assumptions deepcopy_again.
+
+(* a copy that clones tensors, rebuilds the builtin containers and treats every other object as an atom ([pcopy]) is
+   deepcopy exactly on the samples without such objects ... *)
+Theorem pcopy_is_dcopy_without_objects : forall s h, no_opaque s = true -> pcopy h s = dcopy h s.
+Proof. exact pcopy_is_dcopy_without_objects_l. Qed.
+Print Assumptions pcopy_is_dcopy_without_objects.
+
+(* ... and hands out the cached tensor itself for a tuple holding an object holding a tensor: one write through the
+   "copy" and the cached sample reads differently *)
+Theorem object_as_atom_copy_aliases :
+  let h := [5] in
+  let s := SNode false [SNode true [SLeaf 0]] in
+  let h' := fst (pcopy h s) in
+  let s' := snd (pcopy h s) in
+  value h' s' = value h s /\ incl [0%nat] (leaves s') /\
+  value (writes [(0%nat, 105)] h') s <> value h s.
+Proof. exact object_as_atom_copy_aliases_l. Qed.
+Print Assumptions object_as_atom_copy_aliases.
+
 (* ------------------------------------------------------------------- non-vacuity *)
 Definition ex_base : Z -> option Z := fun i => if (0 <=? i) && (i <? 4) then Some (10 * i) else None.
 Definition ex_tf : Z -> Z -> Z := fun d v => 1000 * d + v.
@@ -214,3 +321,40 @@ Example ex_overtaking :
              (init [] [] [[CGet 2; CGet 2]; [CClear; CGet 2; CClear]]) in
   log s = [EClear 1; ELoad 0 2; ELoad 1 2; ERet 0 2 0 (RVal 20); ERet 1 2 0 (RVal 10020); EClear 1].
 Proof. vm_compute. reflexivity. Qed.
+
+(* premises of transform_slot_needed / loader_bypass_prefix_refuted / blank_instance_never_forwards are satisfiable: the class
+   of the seeded change (no `transform` slot without post-cache transform) over a torchvision-style dataset; a Subset *)
+Example ex_transform_slot :
+  let L := {| l_inst := ["logger"; "dataset"; "shared_dict"]%string; l_cls := cls_shared true |} in
+  (~ In "transform"%string (l_inst L) /\ ~ In "transform"%string (l_cls L) /\ In "dataset"%string (l_inst L)) /\
+  getitem_transform L [] (fun n => String.eqb n "transform") = TWrapped /\
+  getitem_transform (shared_layer true) [] (fun n => String.eqb n "transform") = TPost.
+Proof.
+  split; [|split; reflexivity]. split; [|split].
+  - simpl. intros [H|[H|[H|[]]]]; discriminate.
+  - simpl. intuition discriminate.
+  - simpl. tauto.
+Qed.
+
+Example ex_subset_routes :
+  let subset := fun n => (String.eqb n "__getitems__" || String.eqb n "dataset" || String.eqb n "indices")%bool in
+  fetch_route (shared_layer false) ["__class__"; "__add__"]%string subset = Bypass /\
+  fetch_route (shared_layer true) ["__class__"; "__add__"]%string subset = ViaCache /\
+  resolve (shared_layer true) [] subset "indices" = Fwd /\ resolve (shared_layer true) [] subset "dataset" = Own /\
+  resolve (blank_layer true) [] subset "__setstate__" = Missing.
+Proof. repeat split. Qed.
+
+(* premises of deepcopy_private are satisfiable and the statement is not trivial: a dataclass of (tensor, list of tensor)
+   cached at cells 0,1; the copy lives in cells 2,3; writes to both tensors of the copy *)
+Example ex_deepcopy_private :
+  let h := [7; 8] in
+  let s := SNode true [SLeaf 0; SNode false [SLeaf 1]] in
+  below (length h) s /\ dcopy h s = ([7; 8; 7; 8], SNode true [SLeaf 2; SNode false [SLeaf 3]]) /\
+  incl (targets [(2%nat, 100); (3%nat, 200)]) (leaves (snd (dcopy h s))) /\
+  value (writes [(2%nat, 100); (3%nat, 200)] (fst (dcopy h s))) (snd (dcopy h s)) = VNode true [VLeaf 100; VNode false [VLeaf 200]] /\
+  value (writes [(2%nat, 100); (3%nat, 200)] (fst (dcopy h s))) s = VNode true [VLeaf 7; VNode false [VLeaf 8]].
+Proof.
+  repeat split.
+  - repeat constructor.
+  - vm_compute. intros a H. exact H.
+Qed.
